@@ -10,6 +10,18 @@ CHECKS = {
         "note": "Scope is the queue only. NOT covered: drain_messages (hashbrown drain/Entry outside Verus; CBMC infeasible), ExportMap and process_nlri_change (the diff against what was sent, filters, add-path window), the equality with a brand-new session, and every scheduling aspect (A-C01-1). Trusted: prelude (opaque Nlri/Attribute/Nexthop, structural PartialEq on Nlri, hash key model for (u32,u32)), A-C01-2.",
         "technique": "deductive verification with Verus: whole-map postconditions on the real PendingTx methods",
     },
+    "C05": {
+        "text": "Proof (Verus, unbounded in every list length) of the RFC 7606 classifier: validate_update is verified in place against the property — it never resets the session; if any recorded attribute error is not discardable (discardable = optional non-transitive by the attribute's definition, by the received flags only for unknown codes, or AS4_PATH / AS4_AGGREGATOR) or a mandatory attribute (ORIGIN, AS_PATH, next hop except Flowspec) is missing, no Reach comes out and every announced block comes out as a withdrawal; withdrawals of the same UPDATE always come out; whatever route is kept is an announced one carrying the UPDATE's attributes with exactly LOCAL_PREF / ORIGINATOR_ID / CLUSTER_LIST removed when the peer is external; a well-formed UPDATE keeps its routes. Kani proves the attribute flag table the Verus proof assumes (all 256 codes). Found and fixed F-C05-1.",
+        "design_ref": "DESIGN.md §4 C05",
+        "note": "NOT covered: the parse side (parse_message recording each error with its code; session reset only for unparsable NLRI) — parse_message is outside CBMC's reach and not yet under a Verus contract. Trusted: see coverage.trusted_base.",
+        "technique": "deductive verification with Verus of the real validate_update (loop invariants, closure contracts) + complete Kani harness for the flag table",
+    },
+    "C06": {
+        "text": "Bounded model checking only (Kani/CBMC on the real IdAllocator, <= 256 live ids, full 64-bit words): destination identifiers are unique among live prefixes of a shard, least-free allocation, exact frame. Reported at level 'other' — a bounded stand-in is never counted as proved.",
+        "design_ref": "DESIGN.md §4 C06",
+        "note": "Only the identifier clause. The change-stream fold ('folding notifications reproduces the RIB') and 'ending a deferral announces every held-back prefix' live in the Table mutators (note T) and are not covered by any check.",
+        "technique": "Kani/CBMC bounded harnesses on the real IdAllocator::{alloc,dealloc} (bound: 4 bitmap words)",
+    },
     "C07": {
         "text": "Proof (Verus, unbounded): every function of daemon/src/fsm.rs (Connection::*, PeerFsm::*) is verified in place inside the real rustybgpd crate against contracts taken from the property: per-transition postconditions of Connection::process (how Established/OpenConfirm/OpenSent can be entered, FSM-error NOTIFICATION carrying the state, teardown inputs always yield SessionDown) and an inductive invariant of PeerFsm::process (at most one connection in OpenConfirm-or-Established; Established survives a newcomer; loser chosen by BGP identifier and sent Cease/collision; SessionDown frees the slot and reports Idle). Holds for all inputs and, by induction over the step contract, all input histories.",
         "design_ref": "DESIGN.md §4 C07, §3.1",
@@ -40,13 +52,18 @@ CHECKS = {
         "note": "NOT covered yet: PeerCodec::parse_message and the per-family NLRI / attribute / capability body decoders (CBMC does not terminate on parse_message even with callees stubbed: 20-minute timeouts measured; planned for the Verus lane). Trusted: Kani/CBMC, byteorder/bytes/std compiled to goto as is, allocation never fails, format! stubbed (message text irrelevant). Found and fixed F-C03-2/3 (RTR decoder stall, fix: commit 0227dc4).",
         "technique": "Kani/CBMC harnesses on the real decoder functions: loop-free full-domain proofs (BFD, RTR framing) plus bounded stand-ins (RTR bodies, BGP framing)",
     },
+    "C16": {
+        "text": "Proof of the containment and same-direction clauses: IpNet::contains is proved (Kani, complete: every IPv4 / IPv6 prefix without host bits, every mask and address) to hold exactly when the leading mask bits agree and never across families — the test that admits a connection under a dynamic-neighbour prefix; PeerFsm::on_connected (Verus) rejects a second connection in the same direction with CloseConnection and leaves the existing one untouched.",
+        "design_ref": "DESIGN.md §4 C16",
+        "note": "NOT covered: accept_connection / Global::add_peer (async, locks, sockets): that only configured or dynamically permitted addresses reach the FSM, that parameters come from the neighbour's configuration, and deletion of dynamic neighbours; the mirror-image negotiation clause (PeerCodec::negotiate) and the effective add-path maximum are not under contract yet. Preconditions made explicit: mask <= address width and no host bits in the configured prefix (config parsing, unverified).",
+        "technique": "Kani/CBMC complete harnesses on the real IpNet::contains + Verus postcondition on PeerFsm::on_connected",
+    },
 }
 
 _NOT_BUILT = "claimed in DESIGN.md but its check is not built yet in this round; listed here until the check is quiet on the unchanged tree"
 NOT_APPLICABLE = {
-    "C04": _NOT_BUILT, "C05": _NOT_BUILT,
-    "C06": _NOT_BUILT, "C09": _NOT_BUILT, "C12": _NOT_BUILT, "C14": _NOT_BUILT,
-    "C16": _NOT_BUILT, "C19": _NOT_BUILT,
+    "C04": _NOT_BUILT, "C09": _NOT_BUILT, "C12": _NOT_BUILT, "C14": _NOT_BUILT,
+    "C19": _NOT_BUILT,
     "C11": "RestartingDeferral::{new,process} use ~15 iterator adapters and the HashMap Entry API that Verus rejects (a function is verified whole or not at all) and CBMC does not terminate on hashbrown (20-min timeout at the smallest non-vacuous unwinding); no contract within reach decides it (DESIGN.md §5)",
     "C13": "the PDU fold lives inline in async fn serve_inner (tokio::select! over a Framed stream): Verus has no async, Kani no tokio; no non-async function carries the property (DESIGN.md §5)",
     "C15": "counters are maintained inline in Table::{insert,remove,drop,…}: 60–170-line functions over hashbrown entry/retain/Arc/atomics outside Verus's dialect; CBMC diverges on hashbrown (DESIGN.md §5 note T)",
